@@ -45,6 +45,7 @@ type Options struct {
 	IdleBulk           time.Duration
 	Limits             *limits.IMAP
 	JailTime           time.Duration
+	RemoteNonce        string
 	UIDValidityGen     imap.UIDValidityGenerator
 	StoreBuilder       store.Builder
 	DB                 db.ClientInterface
@@ -190,7 +191,9 @@ func start(opts Options, old []*User) (*Server, error) {
 			conn.Reopen()
 		} else {
 			conn = hconn.New(spec.Usernames, spec.Password)
-			conn.IDPrefix = fmt.Sprintf("%sr", spec.UserID)
+			// RemoteNonce keeps the ids a fresh harness remote hands out apart from the ones an earlier process
+			// handed out for the same data directory (the remote is not persistent, its counters restart).
+			conn.IDPrefix = fmt.Sprintf("%sr%s", spec.UserID, opts.RemoteNonce)
 			conn.CollectEchoes = opts.CollectEchoes
 		}
 
